@@ -6,7 +6,7 @@ from vlib import rnd_u64, xhex, U64
 from props.codec_common import CODEC_TRUSTED, boundary_bundles, same_content, crcs_filled, split_out
 
 THEOREMS = ["C15_json_roundtrip", "C15_decode_encode", "C15_text_is_print", "C15_idempotent", "C15_pinned_refuted"]
-REPEAT = 2            # case lines repeated 66 000 times on one thread (state that builds up over many calls)
+REPEAT = 1            # case lines repeated 66 000 times on one thread (state that builds up over many calls)
 REPEAT_CMDS = ('JSON',)
 RELEASE = True          # debug and release builds of the harness (debug_assert!, overflow checks, cfg(debug_assertions))
 RULE = ("JSON <bundle>: the implementation serialises with Bundle::to_json and parses its own text back with Bundle::try_from(String); "
